@@ -1033,10 +1033,7 @@ def _compare_scale(r, label, data, new_upem, rnd, n_random, known=None):
         r.fail("%s: %s" % (where, msg), known_id=kid or known)
 
     def math_kid(key, a, b):
-        # MATH fields that are plain uint16 font-unit values (not MathValueRecords) are left alone
-        plain = key[0] in ("MATH overlap", "MATH glyph variants/parts") or key == ("MATH const", "DELIMITED_SUB_FORMULA_MIN_HEIGHT") \
-            or key == ("MATH const", "DISPLAY_OPERATOR_MIN_HEIGHT")
-        return "C17-scale-math-uint16-fields" if plain and a == b else None
+        return None          # (plain uint16 MATH fields were a known finding until they got their visitor rows: commit 5bd08a1)
 
     if "avar" in f0 and getattr(getattr(f0["avar"], "table", None), "VarStore", None) is not None:
         # avar version 2: its ItemVariationStore holds normalized-coordinate deltas, not design
@@ -1044,7 +1041,7 @@ def _compare_scale(r, label, data, new_upem, rnd, n_random, known=None):
         # other observable is still checked at the intended locations.
         a0, a1 = f0["avar"].compile(f0), f1["avar"].compile(f1)
         if a0 != a1:
-            fail("table avar (version 2 variation store: axis-coordinate deltas) changed", "C17-scale-avar2-varstore")
+            fail("table avar (version 2 variation store: axis-coordinate deltas) changed")
             f1 = _open(data1)
             f1["avar"] = _open(data)["avar"]
             data1 = _save(f1)
@@ -1183,6 +1180,7 @@ SCALE_CORPUS = [
     "varLib/instancer/data/PartialInstancerTest2-VF.ttx", "varLib/instancer/data/PartialInstancerTest-VF.ttx",
     "varLib/instancer/data/CFF2Instancer-VF-1.ttx", "varLib/data/variable_ttx_interpolatable_cff2/interpolatable-test.ttx",
     "varLib/data/master_ttx_interpolatable_ttf/TestFamily4-Italic15.ttx", "voltLib/data/Nutso.ttf",
+    "varLib/data/master_vvar_cff2/TestVVAR.0.ttx",          # per-glyph vertical origins in VORG
 ]
 
 
@@ -1218,6 +1216,64 @@ def scale_upem_corpus_fonts(tier, rnd):
             r.case((rel, new))
             _compare_scale(r, rel, data, new, rnd, 20 if tier == "quick" else 50)
     r.sample({"fonts": len(fonts)})
+    return r
+
+
+@check("C17")
+def scale_upem_varc_transform_only_variations(tier, rnd):
+    """VARC fonts in which a component's TRANSFORM varies while its axis values do not (legal:
+    transformVarIndex set, axisValuesVarIndex absent) - for the first variable component of the
+    font, for every one, and for every second one: scale_upem + save works and everything
+    HarfBuzz reports is the original scaled by new/old."""
+    from fontTools.ttLib.tables import otTables
+    from fontTools.ttLib.scaleUpem import scale_upem
+    r = Result("3 corpus VARC fonts x {first, all, alternate} components stripped of their axis-value variation x 2 new upem values; distinct = (font, which, new upem)")
+    for rel in ("ttLib/data/varc-ac00-ac01.ttf", "ttLib/data/varc-6868.ttf", "ttLib/data/varc-ac01-conditional.ttf"):
+        for which in ("first", "all", "alternate"):
+            font = _open(_corpus_bytes(rel))
+            k = 0
+            for g in font["VARC"].table.VarCompositeGlyphs.VarCompositeGlyph:
+                for c in g.components:
+                    if c.transformVarIndex == otTables.NO_VARIATION_INDEX:
+                        continue
+                    if which == "all" or (which == "first" and k == 0) or (which == "alternate" and k % 2 == 0):
+                        c.axisValuesVarIndex = otTables.NO_VARIATION_INDEX
+                    k += 1
+            if not k:
+                continue
+            data = _save(font)
+            f0 = _open(data)
+            upem, order = f0["head"].unitsPerEm, f0.getGlyphOrder()
+            for new in (upem * 2, 750 if upem != 750 else 1500):
+                r.case((rel, which, new))
+                label = "%s (%s transform-only components) %d -> %d upem" % (rel, which, upem, new)
+                f1 = _open(data)
+                try:
+                    scale_upem(f1, new)
+                    data1 = _save(f1)
+                except Exception as e:
+                    r.fail("%s: scale_upem/save raised %s: %s" % (label, type(e).__name__, str(e)[:150]))
+                    continue
+                k = new / upem
+                (_, h0), (_, h1) = _hb(data), _hb(data1)
+                # a non-integer factor rounds every delta of every active region: compared at the default only
+                for loc in (_locations(f0) if new % upem == 0 else [None]):
+                    if loc:
+                        h0.set_variations(loc)
+                        h1.set_variations(loc)
+                    for gid, name in enumerate(order):
+                        a, b = _outline(h0, gid), _outline(h1, gid)
+                        # component offsets are rounded after scaling and then pass through the component's own
+                        # 2x2 transform; HarfBuzz composes VARC transforms in single precision
+                        ok = len(a) == len(b) and all(o0 == o1 and len(p0) == len(p1) and all(abs(q1[i] - k * q0[i]) <= 2.0 + 1e-3 * abs(k * q0[i]) for q0, q1 in zip(p0, p1) for i in (0, 1))
+                                                      for (o0, p0), (o1, p1) in zip(a, b))
+                        if not ok:
+                            r.fail("%s: outline of %s at %s is not the original scaled by %g (tolerance 2 units): %s -> %s" % (label, name, loc or "default", k, a[:3], b[:3]))
+                            break
+                        a, b = h0.get_glyph_h_advance(gid), h1.get_glyph_h_advance(gid)
+                        if abs(b - k * a) > 1:
+                            r.fail("%s: advance of %s at %s: %r -> %r" % (label, name, loc or "default", a, b))
+                            break
     return r
 
 
